@@ -27,6 +27,7 @@ import (
 )
 
 type vf14Case struct {
+	WinSlots    int   `json:"window_slots,omitempty"` // length of the search window in 16-byte slots (default 12)
 	Rev         byte  `json:"revision"`
 	Slot        int   `json:"slot"`  // 16-byte slot of the root pointer inside the search window
 	Decoy       int   `json:"decoy"` // bit0: decoy before, bit1: decoy after
@@ -65,12 +66,18 @@ type vf14Env struct {
 }
 
 func (e *vf14Env) run(run *verifrt.Run, c vf14Case) {
+	if c.WinSlots == 0 && e.winSlots != 12 && !c.RealWindow {
+		c.WinSlots = e.winSlots
+	}
 	run.Case()
 	report := func(class, msg string) {
 		run.Violate(class, class+" "+verifrt.JSONKey(c), fmt.Sprintf("%s: %s", verifrt.JSONKey(c), msg), c)
 	}
 	mem, base := e.mem, e.base
 	win, winBase, winSlots := e.win, e.winBase, e.winSlots
+	if c.WinSlots != 0 {
+		winSlots = c.WinSlots
+	}
 	if c.RealWindow {
 		win, winBase, winSlots = e.real, 0xe0000, 0x20000/16
 		rsdpLocationLow, rsdpLocationHi = 0xe0000, 0xfffff
@@ -284,11 +291,14 @@ func TestVerifC14(t *testing.T) {
 		t.Fatal(e)
 	}
 	env := &vf14Env{base: r, winBase: r, winSlots: 12}
+	if run.Thorough() {
+		env.winSlots = 24 // thorough: a search window twice as long (recorded in every case, so replays use the same)
+	}
 	env.mem = *(*[]byte)(unsafe.Pointer(&struct {
 		p    uintptr
 		l, c int
 	}{r, 64 * 4096, 64 * 4096}))
-	env.win = env.mem[:env.winSlots*16+64]
+	env.win = env.mem[:24*16+64]
 	// the real BIOS area, if the host lets us map it
 	if rr, _, e2 := syscall.Syscall6(syscall.SYS_MMAP, 0xe0000, 0x20000+4096, syscall.PROT_READ|syscall.PROT_WRITE, syscall.MAP_PRIVATE|syscall.MAP_ANON|0x100000 /* MAP_FIXED_NOREPLACE */, ^uintptr(0), 0); e2 == 0 && rr == 0xe0000 {
 		env.real = *(*[]byte)(unsafe.Pointer(&struct {
@@ -424,6 +434,6 @@ func TestVerifC14(t *testing.T) {
 		}
 		run.Count("real_window_cases", 40)
 	}
-	run.Finish(true, "2 revisions x every admissible 16-byte slot of a 12-slot search window x 4 decoy layouts x every order of <=3 (thorough: 4) of {APIC,HPET,SSDT,FACP} x every corruption subset x DSDT {valid,corrupt} x {one, both} DSDT pointers; root pointer with a bad checksum only; bad-checksum structures corrupted in the first 20 bytes or (revision 2) in the extended part only, of the same or of the other revision than the genuine pointer; arbitrary bytes behind a revision-0 structure; listed tables and DSDTs of 2047..200000 bytes filled with {00,7f,80,a5,ff}, valid and corrupted; first/last admissible slots of the real BIOS area 0xe0000-0xfffff",
+	run.Finish(true, fmt.Sprintf("2 revisions x every admissible 16-byte slot of a %d-slot search window x", env.winSlots)+" 4 decoy layouts x every order of <=3 (thorough: 4) of {APIC,HPET,SSDT,FACP} x every corruption subset x DSDT {valid,corrupt} x {one, both} DSDT pointers; root pointer with a bad checksum only; bad-checksum structures corrupted in the first 20 bytes or (revision 2) in the extended part only, of the same or of the other revision than the genuine pointer; arbitrary bytes behind a revision-0 structure; listed tables and DSDTs of 2047..200000 bytes filled with {00,7f,80,a5,ff}, valid and corrupted; first/last admissible slots of the real BIOS area 0xe0000-0xfffff",
 		"distinct = (revision, table count, corruption mask, DSDT state)")
 }
